@@ -457,8 +457,7 @@ func TestC10(t *testing.T) {
 			return
 		}
 
-		rep.CoqFiles = append(rep.CoqFiles, f.finish(t, dir))
-		rep.CaseFiles = append(rep.CaseFiles, writeJSONL(t, dir, f.name+".jsonl", jl))
+		f.finishSharded(t, dir, rep, jl, 400)
 		f, jl = nil, nil
 	}
 
